@@ -233,7 +233,7 @@ def main(ck):
     con = duckdb.connect()
     for (w2, s2) in accepted:
         try:
-            con.execute('SELECT CAST(1 AS DECIMAL(%d,%d))' % (w2, s2)).fetchall()
+            con.execute('SELECT CAST(0 AS DECIMAL(%d,%d))' % (w2, s2)).fetchall()
             usable.append((w2, s2))
         except Exception as e:  # noqa
             unusable.append((w2, s2, type(e).__name__, str(e)[:120]))
@@ -252,8 +252,29 @@ def main(ck):
         load_lines.append('load %d %d %d %d' % (w2, s2, m, e))
     witness_lines = ['setdec 45 _ %d %d' % dflt, 'setdec 6 10 %d %d' % dflt, 'setdec 30 _ %d %d' % dflt, 'setdec _ _ 30 %d' % dflt[1],
                      'setdec 3 _ %d %d' % dflt, 'setdec _ _ 3 %d' % dflt[1]]
+    # tasks for run(): chosen here (before the single driver call) with exact Python rounding as the oracle
+    def py_load(w2, s2, lit):
+        q = Decimal(lit).quantize(Decimal(1).scaleb(-s2), rounding='ROUND_HALF_UP')
+        return int(q.scaleb(s2)) if abs(q) < Decimal(10) ** (w2 - s2) else None
+    tasks, meta = [], []
+    per = 6 if ck.quick() else 10
+    arith_lines, arith_idx = [], []
+    for (w2, s2) in chosen:
+        lits = [l for (a, b, l) in lit_cases if (a, b) == (w2, s2)]
+        good = [l for l in lits if py_load(w2, s2, l) is not None]
+        bad = [l for l in lits if py_load(w2, s2, l) is None]
+        rows = [(rng.choice(good), rng.choice(good)) for _ in range(per)]
+        rows.append((good[0], good[0])); rows.append((good[1], good[0]))         # max + max, -max - max
+        ti = len(tasks)
+        tasks.append((w2, s2, rows, 'DS_r <- DS_1[calc Me_3 := Me_1 + Me_2, Me_4 := Me_1 - Me_2];')); meta.append(('arith', w2, s2, rows))
+        for ri, (a, b) in enumerate(rows):
+            ia, ib = py_load(w2, s2, a), py_load(w2, s2, b)
+            arith_lines += ['add 38 %d %d %d %d' % (w2, s2, ia, ib), 'sub 38 %d %d %d %d' % (w2, s2, ia, ib)]
+            arith_idx.append((ti, ri))
+        if bad:
+            tasks.append((w2, s2, [(bad[0], '1')], 'DS_r <- DS_1;')); meta.append(('overflow', w2, s2, [(bad[0], '1')]))
     try:
-        ans = ck.driver('Tables', lines + seq_lines + load_lines + witness_lines)
+        ans = ck.driver('Tables', lines + seq_lines + load_lines + witness_lines + arith_lines)
     except (vlib.DriverError, FileNotFoundError) as e:
         ans = None
         ck.unproved('driver:Tables', 'Lean model does not build / run: %s' % str(e)[-600:])
@@ -352,19 +373,6 @@ def main(ck):
 
     # ------------------------------------------------------------------ 4. through run(): CSV in, CSV out, sums / differences
     import multiprocessing as mp
-    tasks, meta = [], []
-    per = 6 if ck.quick() else 10
-    for (w2, s2) in chosen:
-        lits = [l for (a, b, l) in lit_cases if (a, b) == (w2, s2)]
-        good = [l for l in lits if model_load.get((w2, s2, l), 'some').startswith('some')]
-        bad = [l for l in lits if model_load.get((w2, s2, l)) == 'none']
-        rows = []
-        for _ in range(per):
-            rows.append((rng.choice(good), rng.choice(good)))
-        rows.append((good[0], good[0])); rows.append((good[1], good[0]))         # max + max, -max - max
-        tasks.append((w2, s2, rows, 'DS_r <- DS_1[calc Me_3 := Me_1 + Me_2, Me_4 := Me_1 - Me_2];')); meta.append(('arith', w2, s2, rows))
-        if bad:
-            tasks.append((w2, s2, [(bad[0], '1')], 'DS_r <- DS_1;')); meta.append(('overflow', w2, s2, [(bad[0], '1')]))
     # settings given as disable value / unset, and the witnesses of the two acceptance defects
     tasks.append((-1, -1, [('1.0000000000000005', '2')], 'DS_r <- DS_1;')); meta.append(('disable', 38, 15, [('1.0000000000000005', '2')]))
     tasks.append((None, None, [('0.12345678905', '2')], 'DS_r <- DS_1;')); meta.append(('unset', dflt[0], dflt[1], [('0.12345678905', '2')]))
@@ -375,23 +383,7 @@ def main(ck):
     with ctx.Pool(min(8, max(2, len(tasks) // 3)), initializer=_winit, initargs=(vlib.REPO,)) as pool:
         results = pool.map(_wtask, tasks, chunksize=1)
     lap('run()')
-    # Lean side for the arithmetic
-    arith_lines, arith_idx = [], []
-
-    def scaled_int(text, s2):
-        return int(Decimal(text).scaleb(s2))
-    for ti, (kind, w2, s2, rows) in enumerate(meta):
-        if kind != 'arith': continue
-        for ri, (a, b) in enumerate(rows):
-            la, lb = model_load[(w2, s2, a)], model_load[(w2, s2, b)]
-            ia, ib = scaled_int(la[5:], s2), scaled_int(lb[5:], s2)
-            arith_lines += ['add 38 %d %d %d %d' % (w2, s2, ia, ib), 'sub 38 %d %d %d %d' % (w2, s2, ia, ib)]
-            arith_idx.append((ti, ri))
-    try:
-        aans = ck.driver('Tables', arith_lines) if arith_lines else []
-    except (vlib.DriverError, FileNotFoundError) as e:
-        aans = None
-        ck.unproved('driver:Tables', 'Lean model does not run: %s' % str(e)[-400:])
+    aans = ans[load_off + len(load_lines) + len(witness_lines):] if ans else None
     rstats = {'runs': len(tasks), 'ok': 0, 'errors': {}, 'cells_compared': 0, 'overflow_rejected': 0}
     for ti, ((kind, w2, s2, rows), res) in enumerate(zip(meta, results)):
         rk, det, cells, typ = res
@@ -405,7 +397,8 @@ def main(ck):
             exp_rows = {}
             overflow = False
             for ri, (a, b) in enumerate(rows):
-                e = {'Me_1': model_load.get((w2, s2, a), 'some ?')[5:], 'Me_2': model_load.get((w2, s2, b), 'some ?')[5:]}
+                pt = lambda x: format(abs(Decimal(x).quantize(Decimal(1).scaleb(-s2), rounding='ROUND_HALF_UP')) if Decimal(x).quantize(Decimal(1).scaleb(-s2), rounding='ROUND_HALF_UP') == 0 else Decimal(x).quantize(Decimal(1).scaleb(-s2), rounding='ROUND_HALF_UP'), 'f')
+                e = {'Me_1': pt(a), 'Me_2': pt(b)}
                 if kind == 'arith' and aans is not None:
                     k = arith_idx.index((ti, ri))
                     ad, sb = aans[2 * k], aans[2 * k + 1]
@@ -464,7 +457,7 @@ def main(ck):
 
     # ------------------------------------------------------------------ 5. verdicts
     if ans:
-        w = ans[load_off + len(load_lines):]
+        w = ans[load_off + len(load_lines):load_off + len(load_lines) + len(witness_lines)]
         ck.note('full_or_counter', {
             'accept_iff_doc_ranges': 'counter (width 45 accepted)' if ' ok ' in w[0] else 'full statement',
             'accepted_type_valid': 'counter (DECIMAL(6,10) accepted)' if ' ok ' in w[1] else 'full statement',
@@ -491,7 +484,7 @@ def replay(path):
         print('replay env=%r -> globals (%s,%s) outcome %r type %s' % (r['env'], out[0], out[1], out[2], out[3]))
         import duckdb
         try:
-            duckdb.connect().execute('SELECT CAST(1 AS %s)' % out[3]); print('DuckDB accepts', out[3])
+            duckdb.connect().execute('SELECT CAST(0 AS %s)' % out[3]); print('DuckDB accepts', out[3])
         except Exception as e:  # noqa
             print('DuckDB rejects %s: %s' % (out[3], str(e)[:100])); return 1
         return 0
